@@ -4,6 +4,7 @@ For a (writer, reader) pair of one class that use the same folded struct format:
   arity      number of packed arguments / unpacked targets = number of format items
   duplicate  one non-constant source is packed into two positions that the reader routes to different fields
   swap       position i is written from field A and read into field B while B is written at position k != i
+  misplaced  a named field is read from a constant position while the position it is written to is skipped
   zero-read  the reader derives data from a position the writer always fills with zero (reserved/padding)
   tag        a constant the writer packs and a constant the reader compares that position with must be equal
 Everything else is reported as UNRESOLVED (never a verdict).
@@ -356,6 +357,13 @@ def analyse_pair(prog: Program, cls: ClassInfo, writer: FuncInfo, pcall: ast.Cal
             for k in range(n):
                 if k != i and rname[k] == wname[i] and wname[k] and wname[k] != rname[k]:
                     res.problems.append(("swap", f"position {i} is written from self.{W[i].name} but read into `{R[i].name}`; `{R[k].name}` is read from position {k} which is written from self.{W[k].name}"))
+                    break
+    # misplaced: the reader takes field F from a position the writer fills with a constant, and skips the position F is written to
+    for i in range(n):
+        if rname[i] and W[i].kind == "const":
+            for k in range(n):
+                if k != i and wname[k] == rname[i] and R[k].kind == "ignored":
+                    res.problems.append(("misplaced", f"`{R[i].name}` is read from position {i}, which the writer always fills with {W[i].value!r}; the writer puts self.{W[k].name} at position {k}, which the reader skips"))
                     break
     # zero-read
     for i in range(n):
